@@ -194,7 +194,7 @@ func errFlow(fn *ssa.Function, call *ssa.Call) (errFlowVerdict, ssa.Instruction)
 			if len(ret.Results) == 0 {
 				return false // function has no error result: cannot report; not a swallow in this sense
 			}
-			last := ret.Results[len(ret.Results)-1]
+			last := core.RetOperand(ret, len(ret.Results)-1)
 			if !types.Identical(last.Type(), errorType) {
 				return false
 			}
